@@ -991,6 +991,8 @@ def r9_autograd_functions(repo: Repo, rep):
 def run(repo: Repo, rep):
     from .c09 import r3_fast_path  # derivatives of a DeepONet output run through the library's own autograd Function: its backward must be the adjoint of its forward for every batch layout
     r3_fast_path(repo, rep)
+    from .c04 import r8_per_function_points  # a derivative at one row never depends on other rows: operator conditions must hand every input function its own tracked copy of the points
+    r8_per_function_points(repo, rep)
     r8_batch_rank(repo, rep)
     r9_autograd_functions(repo, rep)
     r1_call_discipline(repo, rep)
